@@ -90,32 +90,6 @@ def parseProps : List String → Option (Properties × List String)
     | _ => none
   | _ => none
 
-/-! executable well-formedness = the hypothesis of the round-trip theorems -/
-
-def wfStr (s : Bytes) : Bool := validUtf8 s && s.length < 2 ^ 64
-
-def wfTrait : Trait → Bool
-  | .int i => decide (-(2 : Int) ^ 63 ≤ i ∧ i < (2 : Int) ^ 63)
-  | .str s => wfStr s
-  | _ => true
-
-def namesNodup : List Bytes → Bool
-  | [] => true
-  | n :: r => !r.contains n && namesNodup r
-
-def wfAttrs (a : Attributes) : Bool :=
-  (match a.title with | some t => wfStr t | none => true)
-  && a.traits.all (fun p => wfStr p.1 && wfTrait p.2)
-  && namesNodup (a.traits.map (·.1))
-  && a.traits.length < 2 ^ 64
-
-def wfItem (i : Item) : Bool :=
-  (match i.id with | some id => id.txid.length == 32 && id.index < 2 ^ 32 | none => false)
-  && i.index.isNone && wfAttrs i.attributes
-
-def wfProps (p : Properties) : Bool :=
-  p.txids.isEmpty && p.gallery.all wfItem && wfAttrs p.attributes && p.gallery.length < 2 ^ 64
-
 def optHex : Option Bytes → String
   | none => "none"
   | some b => toHex b
